@@ -493,7 +493,7 @@ func contractKind(name string) bool {
 		rest = name[i+1:]
 	}
 	// (frame:<class> obligations exist per heap class the function touches: a class it no longer touches needs none)
-	return strings.HasPrefix(rest, "post:") || rest == "effects-declared" || rest == "functional" || rest == "cover:pre" || rest == "cover:return"
+	return strings.HasPrefix(rest, "post:") || strings.HasPrefix(rest, "lemma:") || strings.HasPrefix(rest, "lemma-pre:") || rest == "effects-declared" || rest == "functional" || rest == "cover:pre" || rest == "cover:return"
 }
 
 // boundedFallback: when the deductive proof of a function under contract does not go through on the
